@@ -31,7 +31,10 @@ def run_scenario(lines, argv=('-C',), commands=None, timeout=300, ncontinue=None
         with open(sc, 'w') as f:
             f.write('\n'.join(lines) + '\n')
         cmds = os.path.join(tmp, 'cmds.gdb')
+        marker = ('break mock_marker\ncommands\nsilent\n'
+                  'python gdb.write("@@ %d\\n" % int(gdb.parse_and_eval("line")), gdb.STDERR)\ncontinue\nend\n')
         with open(cmds, 'w') as f:
+            f.write(marker)
             if commands is not None:
                 f.write('\n'.join(commands) + '\n')
             else:
@@ -53,13 +56,9 @@ def run_scenario(lines, argv=('-C',), commands=None, timeout=300, ncontinue=None
     segs = {}
     cur = None
     for ln in out.split('\n'):
-        m = re.match(r'@@ (\d+|end \d+)$', ln)
+        m = re.match(r'@@ (-?\d+)$', ln)
         if m:
-            cur = m.group(1)
-            if cur.startswith('end'):
-                cur = 'end'
-            else:
-                cur = int(cur)
+            cur = 'end' if m.group(1) == '-1' else int(m.group(1))
             segs[cur] = []
         elif cur is not None:
             segs[cur].append(ln)
